@@ -12,9 +12,10 @@
 (* thread issuing Read calls one after the other, Close calls (each its own   *)
 (* thread - "Close may be called multiple times, potentially concurrently").  *)
 (* Every API call is a Begin action and an End action; what happens in        *)
-(* between (the commit of a Write, the pump goroutine, the effect of Close,   *)
-(* the peer learning of it) are internal actions, so blocking is explicit:    *)
-(* a call is blocked exactly when it has begun and its End is not enabled.    *)
+(* between (the commit of a Write, a Read taking a message or the closed      *)
+(* signal, the pump goroutine, the effect of Close, the peer learning of it)  *)
+(* are internal actions, so blocking is explicit: a call is blocked exactly   *)
+(* when it has begun and neither its internal step nor its End is enabled.    *)
 (*                                                                            *)
 (* PROPERTIES (mcp/transport.go, doc comments of Connection: "Read reads the  *)
 (* next message to process off the connection.  Connections must allow Read   *)
@@ -384,4 +385,10 @@ RestWrite == AtRest => \A e \in Ends : \A w \in 1..WMax :
                /\ wpc[e][w] = "begun" => ~(closeRet[e] \/ closeRet[P(e)])
 RestNoLoss == (AtRest /\ ~anyClose) => \A e \in Ends : \A w \in 1..WMax :
                (wres[e][w] = "ok" /\ rpc[P(e)] = "begun") => <<e, w>> \in DSet(P(e))
+\* all four at once (ENABLED is evaluated once per state)
+RestAll == ENABLED (Internal \/ Ending) \/
+  /\ \A e \in Ends : \A c \in 1..CMax : cpc[e][c] \in {"idle", "done"}
+  /\ \A e \in Ends : rpc[e] # "idle" => ~(closeRet[e] \/ (PeerCloseSeen(e) /\ ~ErrTaken(e)))
+  /\ \A e \in Ends : \A w \in 1..WMax : wpc[e][w] # "sent" /\ (wpc[e][w] = "begun" => ~(closeRet[e] \/ closeRet[P(e)]))
+  /\ ~anyClose => \A e \in Ends : \A w \in 1..WMax : (wres[e][w] = "ok" /\ rpc[P(e)] = "begun") => <<e, w>> \in DSet(P(e))
 =============================================================================
